@@ -144,6 +144,99 @@ func c04WalkD(in *LNode, out *JNode, fl Flags, inZone bool, zd int, path []strin
 	}
 }
 
+// c04Sequences: lines of other components after damaged lines.  All sequences of up to 3 (thorough 4) lines over an
+// alphabet of damaged lines (cut after a complete member, cut inside a string, a closing brace lost, an object followed
+// by garbage, text) and of other-component lines that lack members of the damaged ones or order them differently, through
+// the real stream code: every other-component line comes out tree-equal to its input, as many of them as went in.
+func c04Sequences(c *Ctx) {
+	full := `{"t":{"$date":"2024-05-01T10:00:03.000+00:00"},"s":"W","c":"CONTROL","id":22120,"ctx":"initandlisten","msg":"Access control is not enabled","tags":["startupWarnings"],"attr":{"note":"no auth","n":7469113720208097282}}`
+	others := []string{
+		`{"t":{"$date":"2024-05-01T10:00:02.000+00:00"},"s":"I","c":"NETWORK","id":22943,"ctx":"listener","msg":"Connection accepted","attr":{"remote":"192.168.1.5:51234","connectionId":12}}`,
+		`{"s":"I","t":{"$date":"2024-05-01T10:00:04.000+00:00"},"msg":"reordered members","c":"STORAGE","attr":{"k":1.50}}`,
+		`{"c":"REPL","attr":{}}`,
+	}
+	damaged := []string{
+		full[:len(full)-1],                      // only the closing brace lost
+		full[:strings.Index(full, `,"attr"`)],   // cut after a complete member
+		full[:strings.Index(full, `no auth`)+3], // cut inside a string
+		full + ` trailing garbage`,
+		`not json at all`,
+		full,
+	}
+	alpha := append(append([]string{}, damaged...), others...)
+	depth := 3
+	if c.Thorough() {
+		depth = 4
+	}
+	var parsed []*JNode
+	for _, o := range others {
+		j, _ := ParseJSON([]byte(o))
+		parsed = append(parsed, j)
+	}
+	Flags{}.Apply()
+	var no int64
+	var seq []int
+	var rec func()
+	rec = func() {
+		if len(seq) > 0 {
+			no++
+			if c.Mine(no) {
+				var lines []string
+				wantOthers := 0
+				for _, i := range seq {
+					lines = append(lines, alpha[i])
+					if i >= len(damaged) {
+						wantOthers++
+					}
+				}
+				for _, ch := range []string{"reader", "gzfile"} {
+					out, err, pv := c06RunInproc(strings.Join(lines, "\n")+"\n", len(lines), ch, "nobar")
+					c.Eval(1)
+					c.Distinct(fmt.Sprintf("c04seq|%v|%s", seq, ch))
+					if pv != nil || err != nil {
+						continue
+					}
+					got := 0
+					bad := ""
+					for _, ol := range strings.Split(strings.TrimSuffix(out, "\n"), "\n") {
+						j, e := ParseJSON([]byte(ol))
+						if e != nil || j.Kind != JObj {
+							continue
+						}
+						cv := jget(j, "c")
+						if cv == nil || cv.Str == "CONTROL" {
+							continue
+						}
+						got++
+						match := false
+						for _, p := range parsed {
+							if jEqual(p, j) {
+								match = true
+							}
+						}
+						if !match && bad == "" {
+							bad = ol
+						}
+					}
+					if bad != "" || got != wantOthers {
+						c.Violate("altered:other-component-line-after-damaged-line", fmt.Sprintf("sequence %v of {6 damaged / complete CONTROL lines, 3 lines of other components} through %s: %d lines of other components went in, %d came out, and this one equals none of the inputs as a tree: %s", seq, ch, wantOthers, got, trunc(bad, 300)), int64(len(seq)),
+							map[string]any{"kind": "c04-sequence", "sequence": seq, "lines": lines, "channel": ch}, nil)
+					}
+				}
+			}
+		}
+		if len(seq) == depth {
+			return
+		}
+		for i := range alpha {
+			seq = append(seq, i)
+			rec()
+			seq = seq[:len(seq)-1]
+		}
+	}
+	rec()
+}
+
 func c04Eval(root *LNode, fl Flags, out string, ok bool) []c04Diff {
 	if !ok {
 		return []c04Diff{{"", "line-rejected", "whole-line"}}
@@ -246,6 +339,7 @@ func c04Run(c *Ctx) {
 				})
 		}
 	}
+	c04Sequences(c)
 	// text outside the zones survives the real line reader at every line length
 	streamLenSweep(c, "C04", []string{"keep-blanks", "keep-mixed", "keep-multibyte"}, Flags{})
 	sweep(c, layers, func(sc *sweepCase) bool {
